@@ -355,6 +355,24 @@ def handle (line : String) : String :=
       | none => "?"))
   | "TERM" :: rest => handleTerm rest
   | "TERMR" :: rest => handleTermR rest
+  | "LOOP" :: ticks :: _ =>
+    -- `r<tCheck>:<tPrinted>` a row iteration, `t<tCheck>:<tPrinted>` a timeout iteration, `S` a sample:
+    -- answers `shown/received` (shown `-` when nothing was drawn yet) at every sample
+    let step := fun (st : Term.Loop × List String) (tok : String) =>
+      match tok.toList with
+      | ['S'] => (st.1, (match st.1.shown with
+          | some n => toString n
+          | none => "-") ++ "/" ++ toString st.1.received :: st.2)
+      | c :: rest =>
+        match (String.ofList rest).splitOn ":" with
+        | [a, b] =>
+          match a.toNat?, b.toNat? with
+          | some a, some b => (st.1.step { isRow := c == 'r', tCheck := a, tPrinted := b }, st.2)
+          | _, _ => st
+        | _ => st
+      | [] => st
+    let r := (toks ticks).foldl step (({} : Term.Loop), [])
+    String.intercalate " " ("L" :: r.2.reverse)
   | "SCHED" :: rest => Ag.Sched.handleSched rest
   | "PARSE" :: hexquery :: _ =>
     (match stringOfHex hexquery.toList with
